@@ -7,6 +7,7 @@ import math
 from rv.core import ctx as _ctx
 from rv.core import instrument
 from rv.core.tolerances import GEOS_BUFFER_SIMPLIFY, ROUND_CAP_SHORTFALL
+from rv.core import scribble
 from rv.gen import geoms
 from rv.props import c03
 
@@ -235,6 +236,18 @@ def judge(ctx, spec, tb, fb, tb2=None, fb2=None):
             ctx.violate("repeat_call_differs", "repeat_call_differs", observed=geoms.to_spec(again), expected=geoms.to_spec(r1), spec=sp)
     except Exception as e:
         ctx.violate_exc("raises", f"raises_on_second_call:{type(e).__name__}", e, spec=sp)
+        again = None
+    if again is not None and ctx.every(sp, 3):
+        # the caller owns what was returned: it edits it in place and buffers an equal, fresh geometry again
+        want = geoms.to_spec(r1)
+        try:
+            if scribble.scribble(again):
+                ctx.mon("repeat_after_result_edit")
+                r3 = O.buffer_geometry(geoms.build(spec), time_buffer=tb, freq_buffer=fb)   # also judged by the wrapper
+                if geoms.to_spec(r3) != want:
+                    ctx.violate("repeat_call_differs", "repeat_call_differs:after_caller_edited_earlier_result", observed=geoms.to_spec(r3), expected=want, spec=sp)
+        except Exception as e:
+            ctx.violate_exc("raises", f"raises_after_result_edit:{type(e).__name__}", e, spec=sp)
     if ctx.evaluations % 4 == 0:
         try:
             gm = geoms.build(spec, how="dict")
